@@ -416,8 +416,9 @@ def read_trees(cat):
     return out
 
 
-def run_script(script, base, rank, size, mark):
-    """-> list of per-step results of this rank (root: every step; other ranks: only what they observe themselves)"""
+def run_script(script, base, rank, size, mark, results):
+    """fills `results`: per-step results of this rank (root: every step; other ranks: only what they observe themselves);
+    what was appended before an exception stays available to the caller"""
     import logging
     import warnings
     import numpy as np
@@ -430,7 +431,7 @@ def run_script(script, base, rank, size, mark):
     root = rank == 0
     mw = script.get("max_workers")
     cmw = None if mw is None else max(2, mw)      # a creation on an MPI world needs a reader and a writer rank
-    cats, specs, kept, results = {}, {}, {}, []
+    cats, specs, kept = {}, {}, {}
     os.makedirs(os.path.join(base, "out"), exist_ok=True)
 
     def path(slot):
@@ -599,7 +600,8 @@ def _rank_main(rank, size, inboxes, job, where, flags):
             out["yaw_file"] = os.path.realpath(yaw.__file__)
             out["use_mpi"] = bool(parallel.use_mpi())
             out["comm"] = type(parallel.COMM).__name__
-            out["results"] = run_script(job["script"], os.path.join(d, "data"), rank, size, mark)
+            out["results"] = []
+            run_script(job["script"], os.path.join(d, "data"), rank, size, mark, out["results"])
         out["ok"] = True
         if _P is not None:
             out["stats"] = _P.stats
@@ -648,8 +650,11 @@ def run_world(job):
         if not any(alive):
             break
         if first_bad is not None and now - first_bad > 1.5:
-            outcome = "rank-failed"          # the others wait for a rank that is gone
-            break
+            # the others wait for a rank that is gone - but a rank that is still working (not blocked in a receive) may be on
+            # its way to the same exception: it gets up to 20 s
+            if size == 1 or now - first_bad > 20.0 or all(flags[r] == 1 for r in range(size) if alive[r]):
+                outcome = "rank-failed"
+                break
         if now - t0 > limit:
             outcome = "timeout"
             break
@@ -842,7 +847,7 @@ def gen_cfg(rng):
 
 
 def gen_spec(rng, base, same_n=None):
-    n = same_n if same_n is not None else rng.choice([24, 36, 48, 60, 72])
+    n = same_n if same_n is not None else rng.choice([24, 36, 48, 60, 72] if base["mode"] == "centers" else [72, 96, 120])
     return dict(n=n, ncent=base["ncent"], mode=base["mode"], weights=rng.random() < 0.6, cs=rng.choice([7, 16, n, 4 * n]),
                 dseed=rng.randrange(1, 10 ** 6))
 
@@ -1200,6 +1205,24 @@ def judge(ctx, sc, w, ref, res, st, report=True):
     def op_at(k):
         return steps[k]["op"] if 0 <= k < len(steps) else "end"
 
+    # the single-process run may REFUSE a call of the history (a documented check raises): then every rank of the world has to
+    # leave that call the same way, and everything before it is compared as usual
+    refused = ref.get("_refused")
+    nsteps = len(steps) if not refused else refused[0]
+    consistent = False
+    if refused and res["outcome"] not in ("timeout", "deadlock"):
+        per = {r: (rank_out(res, int(r)).get("error") or [None])[0] for r in res["ranks"]}
+        at = {r: rank_out(res, int(r)).get("step") for r in res["ranks"]}
+        consistent = (res["outcome"] == "rank-failed" and not any(v.get("stuck") for v in res["ranks"].values())
+                      and all(per[r] == refused[1] and at[r] == refused[0] for r in per))
+        if not consistent:
+            found.append(("c06-procworld-%s-refusal-differs:%s" % (op_at(refused[0]).replace("_", "-"), refused[1]),
+                          "%d ranks as separate processes: the single-process run refuses call %d of the history (%s) with %s; in the world "
+                          "the ranks end with %s at steps %s (outcome %s, ranks killed while waiting: %s)"
+                          % (size, refused[0], OP_WHAT[op_at(refused[0])], refused[1], json.dumps(per, sort_keys=True),
+                             json.dumps(at, sort_keys=True), res["outcome"], sorted(r for r, v in res["ranks"].items() if v.get("stuck"))),
+                          dict(step=refused[0], single_process_raises=refused[1], per_rank=per)))
+
     if res["outcome"] in ("timeout", "deadlock"):
         at = {r: v["at"] for r, v in res["ranks"].items()}
         stuck = sorted(int(r) for r, v in res["ranks"].items() if v.get("stuck"))
@@ -1211,7 +1234,9 @@ def judge(ctx, sc, w, ref, res, st, report=True):
                          "deadlock: every rank still there waits in a receive, nothing in flight" if res["outcome"] == "deadlock"
                          else "stopped after %.0f s" % res.get("wall", 0), json.dumps(at, sort_keys=True)),
                       dict(step=k, stuck_ranks=stuck, step_per_rank=at)))
-    elif res["outcome"] != "ok":
+    elif refused and not consistent:
+        pass
+    elif res["outcome"] != "ok" and not refused:
         bad = sorted(int(r) for r, v in res["ranks"].items() if v.get("exitcode") not in (0, None) and not v.get("stuck"))
         r0 = bad[0] if bad else 0
         o = rank_out(res, r0)
@@ -1227,6 +1252,7 @@ def judge(ctx, sc, w, ref, res, st, report=True):
     else:
         got = rank_out(res, 0).get("results") or []
         want = rank_out(ref, 0).get("results") or []
+        steps = steps[:nsteps]
         for k, step in enumerate(steps):
             if step["op"] == "probe":
                 continue
@@ -1241,7 +1267,7 @@ def judge(ctx, sc, w, ref, res, st, report=True):
                               dict(step=k, first_difference=d[:400])))
                 break
         # probes: every rank against the data that is in the cache now (independent oracle) - also the single process
-        per_rank = [rank_out(res, r).get("results") or [None] * len(steps) for r in range(size)]
+        per_rank = [(rank_out(res, r).get("results") or []) + [None] * len(steps) for r in range(size)]
         events, observed, stale = memo_history(steps, per_rank, size)
         if events:
             st["mterms"].append("c06_memo_case %d [%s] [%s]" % (size, "; ".join(events), "; ".join(str(o) for o in observed)))
@@ -1268,7 +1294,14 @@ def judge(ctx, sc, w, ref, res, st, report=True):
 def judge_reference(ctx, sc, ref, st):
     """the single-process run must end, and its own probe reads must match the oracle (else the oracle or the generator is wrong)"""
     o = rank_out(ref, 0)
-    if ref["outcome"] != "ok" or not o.get("ok"):
+    steps = sc["steps"]
+    if ref["outcome"] == "rank-failed" and o.get("error") and isinstance(o.get("step"), int) and 0 <= o["step"] < len(steps) \
+            and o.get("yaw_file", "").startswith(os.path.realpath(REPO_SRC) + "/") and not o.get("use_mpi"):
+        # a call of the history is refused by the single-process run (e.g. patch centres computed from sparse data are not aligned)
+        ref["_refused"] = (o["step"], o["error"][0])
+        ctx.bump("procworld_histories_with_a_call_refused_by_the_single_process:%s/%s" % (steps[o["step"]]["op"], o["error"][0]))
+        steps = steps[:o["step"]]
+    elif ref["outcome"] != "ok" or not o.get("ok"):
         ctx.disagree("procworld-reference(single-process run of a generated history did not end normally)", ("pw", sc["id"]),
                      dict(outcome=ref["outcome"], error=o.get("error"), tb=(o.get("tb") or "")[-1200:], step=o.get("step"),
                           log=(ref.get("ranks", {}).get("0", {}) or {}).get("log"), steps=[describe_step(s) for s in sc["steps"]]))
@@ -1276,7 +1309,7 @@ def judge_reference(ctx, sc, ref, st):
     if o.get("use_mpi") or not o.get("yaw_file", "").startswith(os.path.realpath(REPO_SRC) + "/"):
         ctx.disagree("procworld-reference(not the single-process branches of the tree under test)", ("pw", sc["id"]), o)
         return False
-    events, observed, stale = memo_history(sc["steps"], [o["results"]], 1)
+    events, observed, stale = memo_history(steps, [(o.get("results") or []) + [None] * len(steps)], 1)
     if stale:
         s0 = stale[0]
         ctx.fail("c06-procworld-single-process-reads-%s-trees:%s" % ("stale" if s0["read_version"] != 999 else "wrong",
